@@ -41,7 +41,12 @@ RULE = (
     "as given) or '.'), not the directory of the link's destination. Stateful cases (16%) keep one tensor object alive: read via entry point A "
     "-> the data file is swapped for a symlink / hard link / dir-symlink escape, gains a hard link, is replaced or "
     "restored, or base_dir is re-pointed, optionally followed by release()/invalidate() -> read via entry point B, "
-    "judged against the truth recomputed at the time of the second read."
+    "judged against the truth recomputed at the time of the second read. Fixed stratum (case % 8 == 5): the base / model "
+    "directory is one of a family of 11 sibling directories whose names are pairwise equal under a folding of names "
+    "(letter case, casefold-only pairs, Unicode NFC/NFD/compatibility forms, trailing dot or space) and hold same-named "
+    "files; locations lead into a neighbour lexically ('../<variant>/x'), absolutely, through a symlinked file or a "
+    "symlinked directory; the two static base directories have such neighbours and case-variant file names as well, and "
+    "the stateful cases re-point base_dir / the data file to a case-variant sibling."
 )
 ASSUMPTIONS = [
     "Linux/POSIX path semantics; the kernel's resolution of (base dir fd, location) is the definition of the fully resolved location",
@@ -54,6 +59,9 @@ ASSUMPTIONS = [
     "bytes of the file validated by an earlier read that are served from the tensor's retained mapping after the file or "
     "base_dir changed (nothing is opened) are report_only: the statement does not say a mapping must be dropped",
     "FIFOs, devices and sockets are not placed in the sandbox",
+    "the scratch file system is case-sensitive and keeps Unicode names byte for byte (names differing in case / "
+    "normalisation form / a trailing dot or space are different directory entries); otherwise building the sandbox fails "
+    "and the run is inconclusive",
 ]
 
 
@@ -83,6 +91,11 @@ def plan(tier: str) -> dict:
                 "big_disallowed_existing_file_refused": 350,
                 "big_bulk_disallowed_existing_file_refused": 60,
                 "big_stateful_cases": 80,
+                # neighbours whose name equals the base directory's under a folding of names
+                "name_variant_neighbour_file_refused": 1500,
+                "name_variant_refused:case-variant-of-base": 600,
+                "name_variant_refused:unicode-form-variant-of-base": 150,
+                "name_variant_refused:trailing-dot-space-variant-of-base": 250,
             }
             if quick
             else {
@@ -103,6 +116,10 @@ def plan(tier: str) -> dict:
                 "big_disallowed_existing_file_refused": 1750,
                 "big_bulk_disallowed_existing_file_refused": 300,
                 "big_stateful_cases": 400,
+                "name_variant_neighbour_file_refused": 20000,
+                "name_variant_refused:case-variant-of-base": 8000,
+                "name_variant_refused:unicode-form-variant-of-base": 2000,
+                "name_variant_refused:trailing-dot-space-variant-of-base": 3500,
             }
         ),
         "min_nontrivial": 6000 if quick else 60000,
@@ -115,8 +132,15 @@ def plan(tier: str) -> dict:
 # --------------------------------------------------------------------------------------------
 
 
-def gen_read_case(rng, sb: Sandbox, tensor_entries_only: bool = False) -> dict:
+def _fold_target(rng) -> str:
+    """A base directory of the name-folding family: the stem half of the time, else a variant."""
+    return L.FOLD_TARGETS[0] if rng.random() < 0.5 else rng.choice(L.FOLD_TARGETS)
+
+
+def gen_read_case(rng, sb: Sandbox, tensor_entries_only: bool = False, fold: bool = False) -> dict:
     target = rng.choice(L.BASE_TARGETS) if rng.random() < 0.5 else "work/B"
+    if fold:
+        target = _fold_target(rng)
     bcls, cwd, base = rng.choice(L.base_spellings(target))
     loc, style = L.gen_location(rng, sb, target)
     route = rng.choice(["ctor", "ctor", "setter", "set_base_dir", "deserialize"])
@@ -210,6 +234,10 @@ def judge_read(ctx, sb: Sandbox, spec: dict, truth: L.Truth, outcome, events, ob
             ctx.count(f"outcome:disallowed-raised:{exc}")
             if truth.exists and not truth.cls.startswith("directory"):
                 ctx.count("disallowed_existing_file_refused")
+                if "-variant-of-base" in truth.cls:
+                    ctx.count("name_variant_neighbour_file_refused")
+                    ctx.count("name_variant_refused:" + truth.cls.split("+", 1)[1])
+                    ctx.count("name_variant_refused_via:" + truth.cls.split("+", 1)[0])
                 if big:
                     ctx.count("big_disallowed_existing_file_refused")
                     if bulk:
@@ -366,11 +394,12 @@ DYN_BASES = [  # (class, cwd rel to R, base template) for the initial base dyn/b
 DYN_LOCS = {"w.bin": "w.bin", "./w.bin": "w.bin", "sub/w2.bin": "sub/w2.bin", "sub/../w.bin": "w.bin",
             "ln_w": "w.bin", "$R/dyn/base/w.bin": "w.bin"}
 FILE_MUTATIONS = ["swap-symlink-out", "swap-symlink-out-rel", "swap-hardlink-out", "add-hardlink",
-                  "swap-symlink-inside", "swap-regular"]
+                  "swap-symlink-inside", "swap-regular", "swap-symlink-case-sibling"]
 REBASE = {  # mutation -> new base_dir template
     "rebase-prefix-sibling": "$R/dyn/base_evil", "rebase-dir-with-symlink-out": "$R/dyn/alt_sym",
     "rebase-dir-with-hardlink": "$R/dyn/alt_hl", "rebase-outside-dir": "$R/dyn/out",
     "rebase-parent": "$R/dyn", "rebase-symlink-to-same": "$R/dyn/base_link",
+    "rebase-case-sibling": "$R/dyn/Base",  # the name differs from dyn/base in letter case only
 }
 SUFFIXES = ["", "", "", "release", "restore", "invalidate"]
 
@@ -406,6 +435,9 @@ def _apply_mutation(sb: Sandbox, spec: dict, t, mut: str, cur_base: str) -> str:
     elif mut == "swap-symlink-out-rel":
         os.unlink(victim)
         os.symlink(("../" * (1 + rel_in_out.count("/"))) + "out/" + rel_in_out, victim)
+    elif mut == "swap-symlink-case-sibling":
+        os.unlink(victim)
+        os.symlink(f"{R}/dyn/Base/{rel_in_out}", victim)
     elif mut == "swap-hardlink-out":
         os.unlink(victim)
         os.link(f"{R}/dyn/out/{rel_in_out}", victim)
@@ -593,15 +625,18 @@ def report_stateful(ctx, sb: Sandbox, spec: dict, viols) -> None:
 
 
 LINK_SHARE = 0.3
+FOLD_STRATUM = 8  # every 8th case number uses the name-folding family (fixed stratum)
 _LOAD_SHRUNK: dict[str, str] = {}  # unshrunk base-dir signature -> signature of its shrunk witness (per shard)
 
 
-def gen_load_case(rng, sb: Sandbox) -> dict:
+def gen_load_case(rng, sb: Sandbox, fold: bool = False) -> dict:
     target = rng.choice(L.BASE_TARGETS)
     fname = "m.onnx" if rng.random() < 0.85 else "m.textproto"
     # a third of the load cases reach the model FILE through a symbolic link that lives in the
     # target directory and leads (directly or over a second link) to the real file elsewhere
     link = L.gen_model_link(rng, target, fname) if rng.random() < LINK_SHARE else None
+    if fold:  # model stored in a directory of the name-folding family (no model-file links there)
+        target, link = _fold_target(rng), None
     spellings = L.load_spellings(target, link["name"] if link else fname)
     if link:  # the static ln_<fname> links do not exist for the per-case link name
         spellings = [s for s in spellings if not s[0].startswith("symlinked-model-file")]
@@ -618,6 +653,9 @@ def gen_load_case(rng, sb: Sandbox) -> dict:
                                         loc_style=style, entry=rng.choice(L.TENSOR_ENTRIES)))
         rel = "../B_evil/evil.bin" if target == "work/B" else "../sub_evil/e.bin"
         decoyed = "data.bin" if target == "work/B" else "inner.bin"  # same-named decoys exist elsewhere
+        if fold:
+            other = rng.choice([n for n in L.FOLD_NAMES if "fold/" + n != target])
+            rel, decoyed = f"../{other}/data.bin", "data.bin"
         for name, loc in (("w_escape_rel", rel), ("w_escape_abs", "$R/outside/secret.bin"), ("w_decoyed", decoyed)):
             spec["tensors"].append({"dtype": "UINT8", "shape": [16], "offset": None, "length": None, "name": name,
                                     "position": "init", "loc": loc, "loc_style": "fixed-witness",
@@ -963,7 +1001,7 @@ def strace_batch(ctx, sb: Sandbox, n: int) -> None:
     specs = []
     i = 0
     while len(specs) < n:
-        s = gen_read_case(ctx.rng(f"strace:{ctx.shard}:{i}"), sb, tensor_entries_only=True)
+        s = gen_read_case(ctx.rng(f"strace:{ctx.shard}:{i}"), sb, tensor_entries_only=True, fold=i % 6 == 5)
         i += 1
         if "parallel" not in s["entry"]:
             specs.append(s)
@@ -1049,6 +1087,16 @@ def run(ctx) -> None:
             rng = ctx.rng(case)
             n_cases += 1
             kind_draw = rng.random()
+            if case % FOLD_STRATUM == FOLD_STRATUM - 3:
+                # fixed stratum: base directories / model directories of the name-folding family
+                if kind_draw < 0.2:
+                    spec = gen_load_case(rng, sb, fold=True)
+                    _do_load_case(ctx, sb, spec, n_cases)
+                else:
+                    spec = gen_read_case(rng, sb, fold=True)
+                    _do_read_case(ctx, sb, spec, n_cases)
+                ctx.count("name_fold_family_cases")
+                continue
             if kind_draw > 0.84:
                 spec = gen_stateful_case(rng, sb)
                 viols, truth, outcome = run_stateful_case(ctx, sb, spec)
@@ -1064,43 +1112,51 @@ def run(ctx) -> None:
                 continue
             if kind_draw < 1 / 6:
                 spec = gen_load_case(rng, sb)
-                viols = run_load_case(ctx, sb, spec)
-                ctx.evaluation(key=["load-clause", spec["spelling"], spec["cwd"], spec["pathlike"], spec["mode"]],
-                               nontrivial=spec["judged"])
-                if n_cases % 40 == 7:
-                    ctx.sample({"kind": "load", "spelling": spec["spelling"], "cwd": spec["cwd"], "mode": spec["mode"],
-                                "locations": [t["loc"] for t in spec["tensors"]][:4]})
-                first = next((sig for sig, _ in viols if sig.startswith("load-base-dir:")), None)
-                if first is not None and first not in _LOAD_SHRUNK:
-                    # shrink once per (status, spelling class, model-file class); later instances
-                    # of the same unshrunk signature are booked under the shrunk one
-                    small = shrink_load(ctx, sb, spec, first)
-                    v2 = run_load_case(ctx, sb, small, count=False) if small != spec else viols
-                    _LOAD_SHRUNK[first] = next((s2 for s2, _ in v2 if s2.startswith("load-base-dir:")), first)
-                    if small != spec and v2:
-                        spec, viols = small, v2
-                seen = set()
-                for sig, msg in viols:
-                    sig = _LOAD_SHRUNK.get(sig, sig) if sig == first else sig
-                    if sig not in seen:
-                        seen.add(sig)
-                        ctx.violation(sig, msg, {"kind": "load", "spec": spec})
+                _do_load_case(ctx, sb, spec, n_cases)
                 continue
             spec = gen_read_case(rng, sb)
-            truth, outcome, viols = run_read_case(ctx, sb, spec)
-            ctx.evaluation(key=_case_key(spec), nontrivial=truth.exists)
-            if n_cases % 25 == 3:
-                ctx.sample({"kind": "read", "base": spec["base"], "cwd": spec["cwd"], "location": spec["loc"],
-                            "entry": spec["entry"], "truth": truth.cls,
-                            "outcome": outcome[0] if outcome[0] == "bytes" else type(outcome[1]).__name__})
-            if viols:
-                report_read_violations(ctx, sb, spec, truth, outcome, viols)
+            _do_read_case(ctx, sb, spec, n_cases)
         if AUDIT.errors:
             ctx.count("audit_hook_errors", AUDIT.errors)
             raise AssertionError(f"harness: audit hook failed {AUDIT.errors} time(s)")
     finally:
         os.chdir(home)
         shutil.rmtree(holder, ignore_errors=True)
+
+
+def _do_load_case(ctx, sb: Sandbox, spec: dict, n_cases: int) -> None:
+    viols = run_load_case(ctx, sb, spec)
+    ctx.evaluation(key=["load-clause", spec["spelling"], spec["cwd"], spec["pathlike"], spec["mode"]],
+                   nontrivial=spec["judged"])
+    if n_cases % 40 == 7:
+        ctx.sample({"kind": "load", "spelling": spec["spelling"], "cwd": spec["cwd"], "mode": spec["mode"],
+                    "locations": [t["loc"] for t in spec["tensors"]][:4]})
+    first = next((sig for sig, _ in viols if sig.startswith("load-base-dir:")), None)
+    if first is not None and first not in _LOAD_SHRUNK:
+        # shrink once per (status, spelling class, model-file class); later instances
+        # of the same unshrunk signature are booked under the shrunk one
+        small = shrink_load(ctx, sb, spec, first)
+        v2 = run_load_case(ctx, sb, small, count=False) if small != spec else viols
+        _LOAD_SHRUNK[first] = next((s2 for s2, _ in v2 if s2.startswith("load-base-dir:")), first)
+        if small != spec and v2:
+            spec, viols = small, v2
+    seen = set()
+    for sig, msg in viols:
+        sig = _LOAD_SHRUNK.get(sig, sig) if sig == first else sig
+        if sig not in seen:
+            seen.add(sig)
+            ctx.violation(sig, msg, {"kind": "load", "spec": spec})
+
+
+def _do_read_case(ctx, sb: Sandbox, spec: dict, n_cases: int) -> None:
+    truth, outcome, viols = run_read_case(ctx, sb, spec)
+    ctx.evaluation(key=_case_key(spec), nontrivial=truth.exists)
+    if n_cases % 25 == 3:
+        ctx.sample({"kind": "read", "base": spec["base"], "cwd": spec["cwd"], "location": spec["loc"],
+                    "entry": spec["entry"], "truth": truth.cls,
+                    "outcome": outcome[0] if outcome[0] == "bytes" else type(outcome[1]).__name__})
+    if viols:
+        report_read_violations(ctx, sb, spec, truth, outcome, viols)
 
 
 def replay(replay_data, ctx) -> None:
